@@ -16,6 +16,10 @@ func main() {
 		fmt.Println("usage: govc <check|debug> ...")
 		os.Exit(2)
 	}
+	os.Setenv("PATH", "/opt/veriftools/go1.26.8/bin:"+os.Getenv("PATH"))
+	for _, kv := range [][2]string{{"GOFLAGS", "-mod=mod"}, {"GOPROXY", "off"}, {"GOSUMDB", "off"}, {"GOTOOLCHAIN", "local"}, {"CGO_ENABLED", "0"}} {
+		os.Setenv(kv[0], kv[1])
+	}
 	if d := os.Getenv("GOVC_REPO"); d != "" {
 		repoDir = d
 	}
@@ -48,18 +52,36 @@ func cmdDebug(args []string) int {
 	dump := fs.String("dump", "", "directory to dump failing queries")
 	budget := fs.Int("t", 10, "budget seconds")
 	all := fs.Bool("all", false, "print discharged obligations too")
+	optsFlag := fs.String("o", "", "peg options for a grammar unit")
 	_ = fs.Parse(args[1:])
 	r := NewRun("debug", "quick", 0)
 	r.Budget = *budget
-	u, keys, err := loadNamedUnit(args[0])
-	if err != nil {
-		fmt.Println("load:", err)
-		return 2
+	if strings.HasSuffix(args[0], ".peg") {
+		// debug <grammar.peg> [-o "-inline -switch"] [-f Rule,...]
+		gp, err := Generate("dbg", args[0], strings.Fields(*optsFlag))
+		if err != nil {
+			fmt.Println("generate:", err)
+			return 2
+		}
+		var only map[string]bool
+		if *fn != "" {
+			only = map[string]bool{}
+			for _, k := range strings.Split(*fn, ",") {
+				only[k] = true
+			}
+		}
+		gp.verifyClosures(r, only)
+	} else {
+		u, keys, err := loadNamedUnit(args[0])
+		if err != nil {
+			fmt.Println("load:", err)
+			return 2
+		}
+		if *fn != "" {
+			keys = strings.Split(*fn, ",")
+		}
+		r.verifyFuncs(u, keys)
 	}
-	if *fn != "" {
-		keys = strings.Split(*fn, ",")
-	}
-	r.verifyFuncs(u, keys)
 	r.solveAll()
 	for _, f := range r.Fns {
 		fmt.Printf("FUNC %-30s verified=%v obligations=%d %s\n", f.Key, f.Verified, f.NObl, f.Reason)
@@ -87,10 +109,6 @@ func cmdDebug(args []string) int {
 	return 0
 }
 
-func cmdCheck(args []string) int {
-	fmt.Println("not implemented yet")
-	return 2
-}
 
 func loadNamedUnit(name string) (*Unit, []string, error) {
 	switch name {
